@@ -205,8 +205,10 @@ sim::Json generate(const std::string& tier, uint64_t seed, uint64_t index) {
     sim::Json ft = sim::Json::object();
     static const char* fnames[] = {"tech:optionfile", "optionfile", "option:file", "OptionFile", "OPTION:FILE"};
     std::string fname = fnames[rng.below(5)];
-    bool missing = rng.chance(0.06);
-    ft.set("text", fname + (where == "argv" || rng.chance(0.7) ? "=" : " = ") + (missing ? "@/nosuch.opt" : "@/o.opt"));
+    bool missing = rng.chance(0.08);
+    const char* bad_path = rng.chance(0.4) ? "@/." : "@/nosuch.opt";     // a directory opens but cannot be read; the other does not exist
+    ft.set("text", fname + (where == "argv" || rng.chance(0.7) ? "=" : " = ") + (missing ? bad_path : "@/o.opt"));
+    ft.set("unreadable", missing);
     ft.set("sem", "file"); ft.set("opt", "tech:optionfile");
     ft.set("lines", missing ? sim::Json::array() : lines);
     sim::Json files = sim::Json::object();
@@ -265,6 +267,7 @@ sim::RunResult run(const sim::Json& sc) {
   sim::RunResult r;
   using sim::g;
   g.reset(); sim::shim_reset();
+  if (g.cpu_budget_s > 4.0) g.cpu_budget_s = 4.0;   // parsing a handful of tokens takes microseconds
   g.scratch = sim::scratch_dir();
   bool totality = sc["totality"].as_bool();
   bool cont = sc["continue_on_error"].as_bool();
@@ -304,7 +307,7 @@ sim::RunResult run(const sim::Json& sc) {
     else if (sem == "narrow") { narrowed = true; narrow_opt = t["opt"].as_str(); apply(want, t); }
     else if (sem == "file") {   // every line of the file is parsed, in order, where the file is named (a missing file has no lines)
       ++file_tokens;
-      if (t["text"].as_str().find("nosuch.opt") != std::string::npos) { want_err = true; stop = true; return; }   // unreadable file: raised, whatever the handler
+      if (t["unreadable"].as_bool()) { want_err = true; stop = true; return; }   // unreadable file (missing, or a directory): raised, whatever the handler
       for (auto& line : t["lines"].arr()) for (auto& lt : line.arr()) ref_token(lt);
     }
   };
